@@ -483,12 +483,14 @@ func init() {
 		regIntrinsic("sync/atomic.Store"+sfx, func(w *Worker, st *State, f *Frame, x *ssa.Call, fv FuncV, a []Value) (Value, bool) {
 			chkOpaque(a[0])
 			st.store(a[0].(Ptr), t, a[1])
+			st.atomicWrote(a[0].(Ptr), a[1])
 			return nil, true
 		})
 		regIntrinsic("sync/atomic.Swap"+sfx, func(w *Worker, st *State, f *Frame, x *ssa.Call, fv FuncV, a []Value) (Value, bool) {
 			chkOpaque(a[0])
 			old := st.load(a[0].(Ptr), t)
 			st.store(a[0].(Ptr), t, a[1])
+			st.atomicWrote(a[0].(Ptr), a[1])
 			return ret(old)
 		})
 		regIntrinsic("sync/atomic.CompareAndSwap"+sfx, func(w *Worker, st *State, f *Frame, x *ssa.Call, fv FuncV, a []Value) (Value, bool) {
@@ -497,6 +499,7 @@ func init() {
 			eq := w.valuesEqual(st, old, a[1], t)
 			if w.decide(st, eq) {
 				st.store(a[0].(Ptr), t, a[2])
+				st.atomicWrote(a[0].(Ptr), a[2])
 				return ret(TTrue)
 			}
 			return ret(TFalse)
@@ -507,16 +510,19 @@ func init() {
 				old := needTerm(st.load(a[0].(Ptr), t), "atomic add")
 				nv := Add(old, needTerm(a[1], "atomic add"))
 				st.store(a[0].(Ptr), t, nv)
+				st.atomicWrote(a[0].(Ptr), nil)
 				return ret(nv)
 			})
 			regIntrinsic("sync/atomic.And"+sfx, func(w *Worker, st *State, f *Frame, x *ssa.Call, fv FuncV, a []Value) (Value, bool) {
 				old := needTerm(st.load(a[0].(Ptr), t), "atomic and")
 				st.store(a[0].(Ptr), t, And(old, needTerm(a[1], "atomic and")))
+				st.atomicWrote(a[0].(Ptr), nil)
 				return ret(old)
 			})
 			regIntrinsic("sync/atomic.Or"+sfx, func(w *Worker, st *State, f *Frame, x *ssa.Call, fv FuncV, a []Value) (Value, bool) {
 				old := needTerm(st.load(a[0].(Ptr), t), "atomic or")
 				st.store(a[0].(Ptr), t, Or(old, needTerm(a[1], "atomic or")))
+				st.atomicWrote(a[0].(Ptr), nil)
 				return ret(old)
 			})
 		}
@@ -613,17 +619,14 @@ func init() {
 		regIntrinsic(n, opaqueStr)
 	}
 	regIntrinsic("fmt.Sprintf", func(w *Worker, st *State, f *Frame, x *ssa.Call, fv FuncV, a []Value) (Value, bool) {
-		// exact model of the one formatting whose text is data: Sprintf(`\%03o`, byte) (defval.marshalBytes)
+		// exact model of formattings whose text is data (defval.marshalBytes: Sprintf(`\%03o`, byte)):
+		// literal text and the integer verbs %o %x %X %d (optional 0 flag and width) applied to a
+		// byte; anything else is opaque text.
 		if fs, ok := a[0].(StrV); ok {
-			if cs, ok := st.concreteString(fs); ok && cs == `\%03o` {
-				if args, ok := a[1].(SliceV); ok && args.Len == 1 {
-					if iv, ok := st.load(args.P, types.NewInterfaceType(nil, nil)).(IfaceV); ok {
-						if c, ok := iv.D.(*Term); ok && c.W == 8 {
-							d := func(sh uint64, mask uint64) *Term {
-								return Add(Const(8, '0'), And(LShr(c, Const(8, sh)), Const(8, mask)))
-							}
-							return ret(st.newString([]*Term{Const(8, '\\'), d(6, 3), d(3, 7), d(0, 7)}))
-						}
+			if cs, ok := st.concreteString(fs); ok {
+				if args, ok := a[1].(SliceV); ok {
+					if out, ok := w.sprintfBytes(st, cs, args); ok {
+						return ret(st.newString(out))
 					}
 				}
 			}
@@ -673,4 +676,143 @@ func fmtErrorType(prog *ssa.Program) types.Type {
 		panic(cutErr{"package errors not loaded"})
 	}
 	return types.NewPointer(p.Type("errorString").Type())
+}
+
+// sprintfBytes models fmt.Sprintf for formats made of literal text and %o/%x/%X/%d verbs with
+// uint8 operands. The number of digits of a symbolic operand is decided by forking.
+func (w *Worker) sprintfBytes(st *State, format string, args SliceV) ([]*Term, bool) {
+	type piece struct {
+		lit          string
+		verb         byte
+		zero         bool
+		width        int
+		arg          *Term
+	}
+	var ps []piece
+	argi := int64(0)
+	anyT := types.NewInterfaceType(nil, nil)
+	for i := 0; i < len(format); {
+		if format[i] != '%' {
+			j := i
+			for j < len(format) && format[j] != '%' {
+				j++
+			}
+			ps = append(ps, piece{lit: format[i:j]})
+			i = j
+			continue
+		}
+		i++
+		if i < len(format) && format[i] == '%' {
+			ps = append(ps, piece{lit: "%"})
+			i++
+			continue
+		}
+		p := piece{}
+		if i < len(format) && format[i] == '0' {
+			p.zero = true
+			i++
+		}
+		for i < len(format) && format[i] >= '0' && format[i] <= '9' {
+			p.width = p.width*10 + int(format[i]-'0')
+			i++
+		}
+		if i >= len(format) || p.width > 8 {
+			return nil, false
+		}
+		p.verb = format[i]
+		i++
+		switch p.verb {
+		case 'o', 'x', 'X', 'd':
+		default:
+			return nil, false
+		}
+		if argi >= args.Len {
+			return nil, false
+		}
+		ap := args.P
+		ap.Off += argi * 16
+		argi++
+		iv, ok := st.load(ap, anyT).(IfaceV)
+		if !ok || iv.T == nil {
+			return nil, false
+		}
+		b, isB := iv.T.Underlying().(*types.Basic)
+		c, isT := iv.D.(*Term)
+		if !isB || b.Kind() != types.Uint8 || !isT || c.W != 8 {
+			return nil, false
+		}
+		p.arg = c
+		ps = append(ps, p)
+	}
+	if argi != args.Len {
+		return nil, false
+	}
+	// decide digit counts first (forking re-executes the call), then build the text
+	type plan struct{ n int }
+	plans := make([]plan, len(ps))
+	for k, p := range ps {
+		if p.arg == nil {
+			continue
+		}
+		base, maxd := uint64(8), 3
+		switch p.verb {
+		case 'x', 'X':
+			base, maxd = 16, 2
+		case 'd':
+			base, maxd = 10, 3
+		}
+		n := 1
+		pow := base
+		for d := 2; d <= maxd; d++ {
+			if w.decide(st, Ule(Const(8, pow), p.arg)) {
+				n = d
+			} else {
+				break
+			}
+			pow *= base
+		}
+		plans[k].n = n
+	}
+	var out []*Term
+	for k, p := range ps {
+		if p.arg == nil {
+			for i := 0; i < len(p.lit); i++ {
+				out = append(out, Const(8, uint64(p.lit[i])))
+			}
+			continue
+		}
+		base := uint64(8)
+		switch p.verb {
+		case 'x', 'X':
+			base = 16
+		case 'd':
+			base = 10
+		}
+		n := plans[k].n
+		pad := byte(' ')
+		if p.zero {
+			pad = '0'
+		}
+		for i := n; i < p.width; i++ {
+			out = append(out, Const(8, uint64(pad)))
+		}
+		for d := n - 1; d >= 0; d-- {
+			div := uint64(1)
+			for j := 0; j < d; j++ {
+				div *= base
+			}
+			dig := URem(UDiv(p.arg, Const(8, div)), Const(8, base))
+			if base == 16 {
+				lo := byte('a')
+				if p.verb == 'X' {
+					lo = 'A'
+				}
+				dig = Ite(Ult(dig, Const(8, 10)), Add(Const(8, '0'), dig), Add(Const(8, uint64(lo)-10), dig))
+			} else {
+				dig = Add(Const(8, '0'), dig)
+			}
+			out = append(out, dig)
+		}
+	}
+	return out, true
 }
